@@ -89,13 +89,23 @@ LEADING_TEMPLATES = {
     'lead-table-cell':     '|{P}{A} x {B}|{P}|\n|---|---|\n|{P}y|z{P}|',
     'lead-footnote-def':   'n[^lf{N}]\n\n[^lf{N}]: {P}{A} x {B}\n    {P}continued',
     'lead-meta-continued': 'Subject: first\n    {P}{A} x {B}',
+    'trail-meta-title':    'Title: {A} x {B}{P}',
+    'trail-meta-author':   'Author: {A} x {B}{P}',
+    'trail-setext':        '{A} x {B}{P}\n=======',
+    'trail-atx-open':      '## {A} x {B}{P}',
+    'trail-bullet':        '* {A} x {B}{P}\n* other{P}',
+    'trail-link-text':     'see [{A} x {B}{P}](http://example.com/) here',
+    'trail-caption':       '| h | i |\n|---|---|\n| y | z |\n[{A} x {B}{P}]',
+    'trail-definition':    'Term{P}\n: {A} x {B}{P}',
     'trail-paragraph':     '{A} x {B}{P}',
     'trail-atx':           '# {A} x {B}{P} #',
     'trail-quote-fenced':  '> ```\n> {A} x {B}{P}\n> ```',
     'trail-table-cell':    '| {A} x {B}{P}| b |\n|---|---|\n| y{P}| z |',
 }
-TEMPLATES.update({k: v for k, v in LEADING_TEMPLATES.items() if k != 'lead-meta-continued'})
-META_TEMPLATES['lead-meta-continued'] = LEADING_TEMPLATES['lead-meta-continued']
+_META_LEAD = ('lead-meta-continued', 'trail-meta-title', 'trail-meta-author')
+TEMPLATES.update({k: v for k, v in LEADING_TEMPLATES.items() if k not in _META_LEAD})
+for _k in _META_LEAD:
+    META_TEMPLATES[_k] = LEADING_TEMPLATES[_k]
 LEADING_KINDS = sorted(LEADING_TEMPLATES)
 ALL_KINDS = sorted(k for k in TEMPLATES if k not in LEADING_TEMPLATES) + sorted(k for k in META_TEMPLATES if k not in LEADING_TEMPLATES)
 
